@@ -48,6 +48,34 @@ def prod_grad_events(tf, ctx, maxlen):
                     "g": [int(round(float(v))) for v in g[r]], "site": SITE,
                     "call": {"t": vecs[r].tolist(), "axis": axis, "kind": shape_kind}})
       ctx.count(len(vecs), nontrivial_key=("prod", n, shape_kind))
+    # the same vectors with some NON-ZERO entries scaled down by 2^-24 (every subset): a tiny factor is not a zero.
+    # Everything stays exact in float32 (powers of two), so the returned gradient, scaled back by 2^(24 * number of
+    # tiny factors among the other entries), must again be the integer product of the other mantissas.
+    if n <= 3:
+      tiny = 2.0 ** -24
+      rows_t, rows_m, rows_k = [], [], []
+      for m in itertools.product(range(-2, 3), repeat=n):
+        nz = [i for i in range(n) if m[i] != 0]
+        for r in range(1, len(nz) + 1):
+          for sub in itertools.combinations(nz, r):
+            flags = [1 if i in sub else 0 for i in range(n)]
+            rows_t.append([m[i] * (tiny if flags[i] else 1.0) for i in range(n)])
+            rows_m.append(list(m))
+            rows_k.append([sum(flags) - flags[i] for i in range(n)])
+      T = np.array(rows_t, dtype=np.float32)
+      t = tf.constant(T)
+      with tf.GradientTape() as tape:
+        tape.watch(t)
+        loss = tf.reduce_sum(kfl.custom_reduce_prod(t, 1)) * 1.0
+      g = tape.gradient(loss, t).numpy().astype(np.float64)
+      for r in range(len(rows_m)):
+        scaled = [g[r][i] * (2.0 ** (24 * rows_k[r][i])) for i in range(n)]
+        if not common.all_finite(scaled) or any(abs(v) > 1e6 for v in scaled):
+          evs.append({"ev": "NonFinite", "site": SITE, "call": {"t": rows_t[r], "tiny": True}})
+          continue
+        evs.append({"ev": "ProdGrad", "t": [int(v) for v in rows_m[r]], "dy": 1, "g": [int(round(v)) for v in scaled],
+                    "site": SITE, "call": {"t": rows_t[r], "axis": 1, "kind": "tiny factors (mantissas shown)"}})
+      ctx.count(len(rows_m), nontrivial_key=("prod-tiny", n))
   return evs
 
 
